@@ -784,6 +784,7 @@ def _ops_valid(kind, ops):
 
 
 class ClockHist(Sub):
+    fuzz_runs = 6000     # thorough tier: additional coverage-guided (atheris) campaign, same strategy / oracle
     name = "clock"
     n = {"quick": 2400, "thorough": 40000}
     budget_s = {"quick": 150.0, "thorough": 3000.0}
